@@ -128,6 +128,12 @@ Theorem c03_current_log_write : gen_ok_log_write && wf_log_write gen_log_write =
 Proof. exact gen_log_write_ok. Qed.
 Print Assumptions c03_current_log_write.
 
+(* JSON taken from outside is bounded where it enters a frame (MAX_PAYLOAD_NESTING + frame + snapshot array < 128):
+   the source-side reason why depth_ok / snapshot_depth_ok hold for the frames the system emits *)
+Theorem c03_current_payload_bound : wf_payload_bound gen_payload_bound gen_payload_guards = true.
+Proof. exact gen_payload_bound_ok. Qed.
+Print Assumptions c03_current_payload_bound.
+
 (* "first line seq 0" is necessary: with only "each frame follows the frame before it", a sidecar re-created by the
    appends after a loss is served as the whole stream *)
 Theorem c03_replay_needs_first_zero_refuted :
